@@ -61,6 +61,7 @@ def _cases(draw, tier):
         case = {'kind': 'solved', 'inst': inst, 'opts': opts, 'salt': salt,
                 'fault_at': fault_at,
                 'fault_kind': draw(st.sampled_from(['Infeasible', 'Undefined', 'NotSolved'])),
+                'fault_persistent': draw(st.booleans()),
                 'choices': draw(strategies.choice_lists)}
         if fault_at is None:
             _lp.attach_decoy(case, _lp.draw_decoy(draw, inst, 30))
@@ -215,7 +216,8 @@ def run_solved(case):
                                            'optimum_checked'])
     plan = []
     if case['fault_at'] is not None:
-        plan = [{'at': case['fault_at'], 'kind': case['fault_kind'], 'persistent': True,
+        plan = [{'at': case['fault_at'], 'kind': case['fault_kind'],
+                 'persistent': case.get('fault_persistent', True),
                  'policy': 'zero'}]
     try:
         fr = faults.FaultRun(inst, opts, plan, choices=case['choices'], salt=case['salt']).run()
